@@ -157,7 +157,17 @@ func applyRemovals(actions []pruneAction, dryRun bool, out io.Writer) error {
 	return errors.Join(errs...)
 }
 
-func indexRepositories(repositories []repositorySpec, opts gitindex.Options, out io.Writer) error {
+// indexRepositories indexes the repositories or, when opts.DryRun is set,
+// reports which of them would be indexed. pruned lists the removals planned
+// for the same run: a dry run leaves those shards on disk, so a repository
+// whose index is among them is reported as requiring indexing, which is what
+// the forced run does once the shard is gone.
+func indexRepositories(repositories []repositorySpec, opts gitindex.Options, pruned []pruneAction, out io.Writer) error {
+	prunedShards := make(map[string]struct{}, len(pruned))
+	for _, action := range pruned {
+		prunedShards[action.Shard] = struct{}{}
+	}
+
 	var errs []error
 	for _, repo := range repositories {
 		repoOpts := opts
@@ -170,6 +180,11 @@ func indexRepositories(repositories []repositorySpec, opts gitindex.Options, out
 		if err != nil {
 			errs = append(errs, fmt.Errorf("index %q from %s: %w", repo.Name, repo.Source, err))
 			continue
+		}
+		if repoOpts.DryRun && !updated {
+			if shards := repoOpts.BuildOptions.FindAllShards(); len(shards) > 0 {
+				_, updated = prunedShards[shards[0]]
+			}
 		}
 		if repoOpts.DryRun && updated {
 			fmt.Fprintf(out, "Would index %q from %s\n", repo.Name, repo.Source)
